@@ -25,6 +25,11 @@ def fmt_key(t):
     """(template, index term) of a fmt('data{}', i) key"""
     if t[0] == "fmt" and len(t[2]) == 1:
         return t[1][1], t[2][0]
+    if t[0] == "elem":
+        # name drawn from a list of such keys: [fmt('data{}', i) for i in ...]
+        seq = Q.unseq(t[1])
+        if seq[0] == "comp":
+            return fmt_key(seq[2])
     return None, None
 
 
